@@ -11,6 +11,7 @@ import (
 type Gen struct {
 	r    *lib.Rng
 	fr   *fresher
+	scoped bool // the chain ends in a Scopes call: no inline conditions on the finisher
 	exec bool // cleared when a construct is produced that SQLite cannot run (DryRun-only case)
 	bad  bool // the case deliberately leaves the property's domain
 }
@@ -35,7 +36,9 @@ func (g *Gen) int() V {
 func (g *Gen) null() V {
 	return vs(Sc{K: "null"}, lib.Pick(g.r, []string{"nil", "*string", "*int64"}))
 }
-func (g *Gen) bytes() V { return vs(Sc{K: "bytes", S: g.fr.str()[:3+g.r.Intn(3)]}, "[]byte") }
+func (g *Gen) bytes() V {
+	return vs(Sc{K: "bytes", S: g.fr.str()[:3+g.r.Intn(3)]}, lib.Pick(g.r, []string{"[]byte", "[]byte", "mybytes"}))
+}
 func (g *Gen) scalar() V {
 	switch g.r.Intn(12) {
 	case 0, 1, 2, 3, 4:
@@ -204,6 +207,9 @@ func (g *Gen) rawsub() V {
 	case 1:
 		return V{T: "VRawSub", S: "SELECT max(age) FROM items WHERE code <> ?", L: []V{g.scalarNoBytes()}}
 	case 2:
+		if g.r.Chance(1, 3) { // '@' inside a literal: the embedded text is built again by the named scanner
+			return V{T: "VRawSub", S: "SELECT id FROM items WHERE name <> 'a@b.c' AND code <> ?", L: []V{g.scalarNoBytes()}}
+		}
 		return V{T: "VRawSub", S: "SELECT id FROM items WHERE name = @n AND code <> @c", L: []V{named("n", g.str()), named("c", g.str())}}
 	}
 	// eleven values: "$1" is a prefix of "$10" and "$11"
@@ -382,8 +388,11 @@ func (g *Gen) namedTemplate() (string, V) {
 // ---- clause.Expression trees ----
 func (g *Gen) cexpr(depth int) V {
 	colv := func() V {
-		if g.r.Chance(1, 4) {
+		switch g.r.Intn(8) {
+		case 0, 1:
 			return V{T: "VCol", S: "items", S2: g.col()}
+		case 2: // clause.Expr as the column of Eq / IN
+			return V{T: "VExpr", S: "lower(" + g.col() + ")"}
 		}
 		return vq(g.col())
 	}
@@ -473,7 +482,9 @@ func (g *Gen) fieldVal(c string, zero bool) V {
 		if zero {
 			return vs(Sc{K: "bytes", S: ""}, "[]byte")
 		}
-		return g.bytes()
+		b := g.bytes()
+		b.Go = "[]byte" // the struct field's type
+		return b
 	case "note":
 		if zero {
 			return vs(Sc{K: "null"}, "*string")
@@ -530,7 +541,19 @@ func (g *Gen) mapCond() V {
 		es = append(es, named(c, v))
 	}
 	sortNamed(es)
-	return V{T: "VMapCond", L: es}
+	m := V{T: "VMapCond", L: es}
+	allStr := true
+	for _, e := range es {
+		if !(e.X.T == "VS" && e.X.Sc.K == "str" && e.X.Go == "string") {
+			allStr = false
+		}
+	}
+	if allStr && g.r.Bool() {
+		m.Go = "strmap" // map[string]string
+	} else if len(es) == 1 && g.r.Chance(1, 3) {
+		m.Go = "ifacemap" // map[interface{}]interface{} with one entry
+	}
+	return m
 }
 
 // ---- one Where / Not / Or call ----
@@ -571,12 +594,51 @@ func (g *Gen) condForm(depth int) (V, []V) {
 	case 10, 11:
 		return g.mapCond(), nil
 	case 12:
+		switch g.r.Intn(5) {
+		case 0:
+			return V{T: "VStructCond", Go: "ptr", L: g.fields(4, true)}, nil
+		case 1: // Where(Item{...}, "name", "Age"): the named columns are conditions even when zero
+			fs := g.fields(4, true)
+			sel := []V{}
+			for _, nm := range [][2]string{{"name", "name"}, {"Age", "age"}, {"code", "code"}} {
+				if g.r.Bool() || len(sel) == 0 {
+					sel = append(sel, vq(nm[0]))
+					for i := range fs {
+						if fs[i].S == nm[1] {
+							fs[i].B = false
+						}
+					}
+				}
+			}
+			for i := range fs { // with a selection, ONLY the named columns count
+				named := false
+				for _, q := range sel {
+					if strings.ToLower(q.S) == fs[i].S {
+						named = true
+					}
+				}
+				if !named {
+					fs[i].B = true
+					fs[i].X = vp(g.fieldVal(fs[i].S, true))
+				}
+			}
+			return V{T: "VStructCond", L: fs}, sel
+		case 2: // Where([]Item{a, b})
+			return V{T: "VStructCond", Go: "slice", L: append(g.fields(4, true), g.fields(4, true)...)}, nil
+		}
 		return V{T: "VStructCond", L: g.fields(4, true)}, nil
 	case 13, 14, 15:
 		return normExpr(g.cexpr(depth)), nil
 	case 16:
+		if g.r.Chance(1, 6) {
+			return vq(""), nil // Where(""): no condition
+		}
 		if depth > 0 {
 			ti := TInfo{}
+			if g.r.Chance(1, 4) { // db.Or(x) alone as a grouped condition
+				q, a := g.condForm(0)
+				return V{T: "VSub", TI: &ti, L: []V{{T: "KCond", S: "KOr", X: &q, L: a}}}, nil
+			}
 			calls := []V{g.condCall(depth-1, false)}
 			for i := g.r.Intn(3); i > 0; i-- {
 				calls = append(calls, g.condCall(depth-1, true))
@@ -600,6 +662,9 @@ func (g *Gen) condForm(depth int) (V, []V) {
 		if g.r.Bool() {
 			// clause.NamedExpr given '?' arguments only (the scanner Joins uses)
 			c := g.col()
+			if g.r.Chance(1, 3) {
+				return V{T: "VNamedExpr", S: c + " IN (?) OR " + c + " = (?)", L: []V{g.drv(), g.scalar()}}, nil
+			}
 			return V{T: "VNamedExpr", S: c + " IN (?) OR " + c + " NOT IN (?)", L: []V{g.list(0, true), g.list(0, true)}}, nil
 		}
 		t, src := g.namedTemplate()
@@ -689,10 +754,20 @@ func (g *Gen) badCall() V {
 	return V{T: "KCond", S: "KWh", X: vp(vq(lib.Pick(g.r, []string{"1 = 1 AND name = ?", "name = ? AND code <> '$'"}))), L: []V{g.str()}}
 }
 
+// modelKey: now and then the value given to Model() carries its primary key
+func (g *Gen) modelKey(in *Input) {
+	if g.r.Chance(1, 4) {
+		k := V{T: "VField", S: "id", X: vp(vs(Sc{K: "int", I: int64(g.r.Range(1, 3))}, "uint"))}
+		in.Chain = append([]V{k}, in.Chain...)
+	}
+}
+
 // ---- whole cases ----
 func (g *Gen) queryChain(depth int) []V {
 	var ch []V
-	if g.r.Chance(1, 8) {
+	if g.r.Chance(1, 16) {
+		ch = append(ch, V{T: "KTable", S: "main.items", S2: "items"}) // schema-qualified: quoted part by part
+	} else if g.r.Chance(1, 8) {
 		ch = append(ch, V{T: "KTable", S: "items"})
 	} else if g.r.Chance(1, 10) {
 		name := lib.Pick(g.r, []string{"(?) AS items", "(?) as items"})
@@ -704,7 +779,9 @@ func (g *Gen) queryChain(depth int) []V {
 	}
 	switch g.r.Intn(12) {
 	case 0:
-		ch = append(ch, V{T: "KSelectCols", SL: []string{"name", "age"}})
+		ch = append(ch, V{T: "KSelectCols", SL: []string{"name", "age", "code"}[:g.r.Range(2, 3)], Go: lib.Pick(g.r, []string{"", "spread", "slice+more"})})
+	case 4: // clause.Column / clause.Table values as arguments: quoted, with alias
+		ch = append(ch, V{T: "KSelect", S: "?, ?", L: []V{{T: "VCol", S2: "name", S3: "name"}, {T: "VCol", S: "items", S2: "code", S3: "code"}}})
 	case 1:
 		ch = append(ch, V{T: "KSelect", S: "name, coalesce(?, code) AS code", L: []V{g.scalar()}})
 	case 2:
@@ -723,6 +800,8 @@ func (g *Gen) queryChain(depth int) []V {
 			ch = append(ch, V{T: "KJoins", S: "LEFT JOIN (?) AS s ON s.id = items.id", L: []V{g.sub(depth-1, false)}})
 		case 2:
 			ch = append(ch, V{T: "KJoins", S: "JOIN items j ON j.code = @c", L: []V{named("c", g.str())}})
+		case 3:
+			ch = append(ch, V{T: "KJoins", Go: "inner", S: "JOIN ? ON j.id = items.id AND j.name <> ?", L: []V{{T: "VTable", S: "items", S2: "j"}, g.scalar()}})
 		default:
 			// Joins always builds through NamedExpr: slice expansion (incl. the empty slice) right after '('
 			ch = append(ch, V{T: "KJoins", S: "JOIN items AS j ON j.id = items.id AND j.age IN (?) AND j.code <> ?", L: []V{g.list(0, true), g.scalar()}})
@@ -749,7 +828,12 @@ func (g *Gen) queryChain(depth int) []V {
 	if g.r.Chance(1, 10) {
 		ch = append(ch, V{T: "KOffset", N: int64(g.r.Range(-1, 3))})
 	}
-	if g.r.Chance(1, 12) {
+	if g.r.Chance(1, 12) { // a scope: its condition is added when the finisher executes, i.e. last
+		c := g.condCall(1, true)
+		c.Go = "scope"
+		ch = append(ch, c)
+		g.scoped = true
+	} else if g.r.Chance(1, 12) {
 		ch = append(ch, V{T: "KClauses", L: []V{{T: "VWhere", L: []V{normExpr(g.cexpr(1))}}}})
 	} else if g.r.Chance(1, 12) {
 		ch = append(ch, V{T: "KClauses", L: []V{normExpr(g.cexpr(1))}})
@@ -783,7 +867,13 @@ func (g *Gen) setValue(c string) V {
 
 func (g *Gen) onConflict() V {
 	oc := V{T: "VOnConflict", L: []V{{T: "VCol", S2: "id"}}}
-	switch g.r.Intn(3) {
+	switch g.r.Intn(5) {
+	case 3: // clause.AssignmentColumns: every column from "excluded"
+		oc.Go = "excluded"
+		for _, c := range []string{"age", "code", "name"}[:g.r.Range(1, 3)] {
+			oc.L2 = append(oc.L2, named(c, V{T: "VCol", S: "excluded", S2: c}))
+		}
+	case 4: // DO UPDATE SET with nothing to set: key = key
 	case 0:
 		oc.B = true
 	case 1:
@@ -861,14 +951,14 @@ func (g *Gen) Input() Input {
 	case 0, 1, 2, 3, 4:
 		in.Chain = g.queryChain(depth)
 		in.Fin = Fin{K: "find"}
-		if g.r.Chance(1, 4) {
+		if g.r.Chance(1, 4) && !g.scoped {
 			q, a := g.condForm(1)
 			in.Fin.L = append([]V{q}, a...)
 		}
 	case 5, 6:
 		in.Chain = g.queryChain(depth)
 		in.Fin = Fin{K: lib.Pick(g.r, []string{"first", "first", "take", "last"})}
-		if g.r.Chance(1, 3) {
+		if g.r.Chance(1, 3) && !g.scoped {
 			q, a := g.condForm(1)
 			in.Fin.L = append([]V{q}, a...)
 		}
@@ -885,7 +975,8 @@ func (g *Gen) Input() Input {
 	case 10, 11:
 		in.Chain = g.whereChain(depth)
 		c := lib.Pick(g.r, []string{"name", "code", "Age", "note", "nick", "data"})
-		in.Fin = Fin{K: "update", S: c, X: vp(g.setValue(strings.ToLower(c)))}
+		in.Fin = Fin{K: lib.Pick(g.r, []string{"update", "update", "update_column"}), S: c, X: vp(g.setValue(strings.ToLower(c)))}
+		g.modelKey(&in)
 	case 12:
 		in.Chain = g.whereChain(depth)
 		es := []V{}
@@ -898,7 +989,8 @@ func (g *Gen) Input() Input {
 			}
 		}
 		sortNamed(es)
-		in.Fin = Fin{K: "updates_map", L: es}
+		in.Fin = Fin{K: lib.Pick(g.r, []string{"updates_map", "updates_map", "update_columns"}), L: es}
+		g.modelKey(&in)
 	case 13:
 		in.Chain = g.whereChain(depth)
 		fs := g.fields(3, g.r.Chance(5, 6))
@@ -915,6 +1007,7 @@ func (g *Gen) Input() Input {
 	case 14:
 		in.Chain = g.whereChain(depth)
 		in.Fin = Fin{K: "delete"}
+		g.modelKey(&in)
 		if g.r.Chance(1, 3) {
 			q, a := g.condForm(1)
 			in.Fin.L = append([]V{q}, a...)
@@ -924,10 +1017,20 @@ func (g *Gen) Input() Input {
 			in.Chain = []V{{T: "KClauses", L: []V{g.onConflict()}}}
 		}
 		in.Fin = Fin{K: "create_struct", L: g.fields(2, !(len(in.Chain) > 0 && g.r.Bool()))}
+		if len(in.Chain) == 0 && g.r.Chance(1, 4) { // Save(&record) with its key: update of every column
+			fs := g.fields(2, false)
+			fs[0].X = vp(vs(Sc{K: "int", I: int64(g.r.Range(1, 3))}, "uint"))
+			in.Fin = Fin{K: "save_struct", L: fs}
+		}
 	case 16:
 		rows := []V{}
+		mixed := g.r.Chance(1, 3) // some records carry their key: the others get the dialect's default expression
 		for i := g.r.Range(1, 3); i > 0; i-- {
-			rows = append(rows, V{T: "VSeq", L: g.fields(2, true)})
+			rows = append(rows, V{T: "VSeq", L: g.fields(2, !(mixed && g.r.Bool()))})
+		}
+		if g.r.Chance(1, 4) { // Save(&records): insert, on conflict update every column
+			in.Fin = Fin{K: "save_slice", L: rows}
+			break
 		}
 		if g.r.Chance(1, 4) {
 			in.Chain = []V{{T: "KClauses", L: []V{g.onConflict()}}}
